@@ -355,6 +355,20 @@ def trs_pool(rare_first=True):
     return [g for _, g in out]
 
 
+def inv_pool():
+    """Generating sets (rows {"s","p"}) of 5 - 7 qubit stabilizer states chosen by execution coverage of the circuit
+    synthesis (engine/covpool.py inv, /verif/pools/inv_states.json), those reaching rarely executed code first."""
+    import json
+    import os
+    path = os.path.join(os.path.dirname(os.path.dirname(os.path.abspath(__file__))), "pools", "inv_states.json")
+    if not os.path.exists(path):
+        return []
+    d = json.load(open(path))
+    rare = set(d.get("rarely_executed", {}))
+    recs = sorted(d["states"], key=lambda r: -len(rare & set(r.get("new_transitions", []))))
+    return [r["rows"] for r in recs]
+
+
 # ----------------------------------------------------------------------------------------------------------
 # full structural projection of a CircuitDAG (C12 / C04 / C18)
 def _nid(n):
